@@ -12,7 +12,8 @@ import trace_kernels as TK
 THEOREMS = ['C12_ortho_conventional', 'C12_ortho_metric', 'C12_metric_matrix_code', 'C12_det_volume',
             'C12_volumes_agree', 'C12_ortho_inverse', 'C12_inverse_general', 'C12_f2c_agree', 'C12_c2f_f2c',
             'C12_dist_metric', 'C12_vector_length_metric', 'C12_recip_lengths', 'C12_ustar_correct',
-            'C12_ucart_correct', 'C12_ucart_symmetric', 'C12_ueq_trace', 'C12_ueq_iso', 'C12_pd_congruence', 'C12_valid_cell_ortho', 'C12_valid_cell_hex']
+            'C12_ucart_correct', 'C12_ucart_symmetric', 'C12_ueq_trace', 'C12_ueq_iso', 'C12_pd_congruence', 'C12_sylvester3', 'C12_k_npd_is_model',
+            'C12_npd_aniso_correct', 'C12_npd_iso_correct', 'C12_npd_example_pd', 'C12_npd_example_npd', 'C12_valid_cell_ortho', 'C12_valid_cell_hex']
 GEN_FILES = ['K_cell', 'K_adp']
 
 
@@ -144,7 +145,8 @@ def build(rng, cell, natoms):
             lines.append('C%d 1 %.5f %.5f %.5f 11.0 %.5f %.5f =' % (i, xyz[0], xyz[1], xyz[2], uv[0], uv[1]))
             lines.append('   %.5f %.5f %.5f %.5f' % (uv[2], uv[3], uv[4], uv[5]))
         else:
-            uv = [round(rng.uniform(0.01, 0.09), 5), 0, 0, 0, 0, 0]
+            # isotropic: mostly positive; also a negative U (not positive definite) and a U tied to the pivot atom (-1.2, -1.5: positive quantities)
+            uv = [rng.choice([round(rng.uniform(0.01, 0.09), 5)] * 4 + [round(rng.uniform(-0.45, -0.001), 5), -1.2, -1.5]), 0, 0, 0, 0, 0]
             lines.append('C%d 1 %.5f %.5f %.5f 11.0 %.5f' % (i, xyz[0], xyz[1], xyz[2], uv[0]))
         atoms.append((xyz, uv, kind))
     lines += ['HKLF 4', 'END']
@@ -231,14 +233,14 @@ def oracle(ctx, n_struct):
                     if npd is not (not pd):
                         bad('is_npd() differs from "U is not positive definite" (Sylvester)', not pd, npd, {'uvals': uv})
             else:
-                if not close(at.ueq, uv[0]):
+                if uv[0] > 0 and not close(at.ueq, uv[0]):
                     bad('Ueq of an isotropic atom differs from Uiso', uv[0], at.ueq, {'uvals': uv})
                 try:
                     npd = at.is_npd()
                 except Exception as ex:
                     npd = 'raised %s' % type(ex).__name__
-                if npd is not False:
-                    bad('is_npd() of an isotropic atom with positive Uiso', False, npd, {'uvals': uv})
+                if npd is not (-0.5 < uv[0] <= 0):
+                    bad('is_npd() of an isotropic atom differs from "U is not positive" (values below -0.5 tie U to the pivot atom)', -0.5 < uv[0] <= 0, npd, {'uvals': uv})
         # pair distances
         for i in range(len(atoms) - 1):
             p, q = atoms[i][0], atoms[i + 1][0]
@@ -265,8 +267,9 @@ def run(ctx):
     ctx.cov['rule'] = ('random cells of all seven crystal systems (non-degenerate: D > 0.1), atoms with random coordinates, '
                        'isotropic or anisotropic U of prescribed definiteness (margin from singular); each atom / pair is one evaluation '
                        'of the public API against the metric-tensor reference (relative tolerance 1e-8); all random, hence distinct')
-    ctx.assumptions += ['is_npd: convergence of the QR iteration is not proved; PD-congruence of U and U(cart) is (C12_pd_congruence); '
-                        'the decision itself is checked by correspondence against the Sylvester criterion']
+    ctx.assumptions += ['is_npd: the decision tree is traced from the source on every run (k_npd, every path incl. the isotropic ranges) and proved to report '
+                        'exactly the tensors that are not positive definite (C12_npd_aniso_correct: Sylvester + congruence of U and U(cart)); floating-point '
+                        'rounding of the minors near zero is not modelled; misc.eigenvals (QR iteration) is no longer used by is_npd and is not modelled']
 
 
 def replay(ctx, rp):
